@@ -48,8 +48,14 @@ func c01NewsArtListData() (*NewsArtListData, []byte) {
 func c01NewsArtListDataEnc(d *NewsArtListData) vEnc {
 	return vEnc{d.Read, func(o int) { d.readOffset = o }, func() int { return d.readOffset }}
 }
-func VH_C01_NewsArtListDataLayout() { d, ref := c01NewsArtListData(); c01Layout(c01NewsArtListDataEnc(d), ref, 4000) }
-func VH_C01_NewsArtListDataDrain()  { d, ref := c01NewsArtListData(); c01DrainStep(c01NewsArtListDataEnc(d), ref, 4000) }
+func VH_C01_NewsArtListDataLayout() {
+	d, ref := c01NewsArtListData()
+	c01Layout(c01NewsArtListDataEnc(d), ref, 4000)
+}
+func VH_C01_NewsArtListDataDrain() {
+	d, ref := c01NewsArtListData()
+	c01DrainStep(c01NewsArtListDataEnc(d), ref, 4000)
+}
 
 // ---- category record: type(2) count(2) [guid(16) addSN(4) delSN(4) iff category] len(1) name ------------------
 
